@@ -36,6 +36,7 @@ static std::vector<Model> g_all;	 // every model (replay lookup, "other" model)
 static const Model* g_other_a = nullptr; // smallest sample, target of "assign over a loaded model"
 static const Model* g_other_b = nullptr; // second smallest (used when the model itself is g_other_a)
 static int g_depth = 1;
+static uint32_t g_big = 100; // models with more blocks than this: no history made of two DeleteBlock operations
 
 using History = std::vector<std::string>;
 static const char* KINDS[3] = {"ctor", "assign-empty", "assign-loaded"};
@@ -312,12 +313,11 @@ static void run_scenario(const Model& m, int kind, int side, int order, const Hi
 		if (fc >= 0 && !(last && ar.cut)) {
 			c.viol(std::string("edited-") + ename + ":shape-geometry-cache-outside-model",
 				   vf::strf("after %s shape #%d of the edited %s caches a geometry pointer outside its own model; the twin's does not", h[i].c_str(), fc, ename));
-			cut = true;
 		}
-		if (fc >= 0) cut = true;
-		check_untouched(c, U, ++k, op_name(h[i]), base, cb);
-		if (cut) break;
+		if (fc >= 0) { cut = true; break; }
 	}
+	// one check of the untouched side after the whole history (every prefix is a scenario of its own)
+	if (ar.len > 0) check_untouched(c, U, ++k, op_name(h[ar.len - 1]), base, cb);
 	if (ar.cut) cut = true;
 	// destruction
 	const bool e_first = (order == 0) == (side == 1); // order 0 = source first; side 1 = source edited
@@ -411,8 +411,10 @@ static void run_unit(const Unit& u, const std::vector<std::string>& skips, Stats
 	AResult a1;
 	if (!run_history(m, h1, skip, st, &a1)) return;
 	if (g_depth < 2 || a1.cut) return;
+	const bool big = g_menu0[u.model].size() > 6 + (size_t) g_big;
 	for (auto& op2 : a1.menu) {
 		if (vf::deadline_passed()) { st.capped("deadline reached inside unit " + m.name + " / " + h1[0]); return; }
+		if (big && h1[0].compare(0, 4, "del:") == 0 && op2.compare(0, 4, "del:") == 0) { st.add("histories_outside_bound_two_deletes_big_model"); continue; }
 		History h2 = {h1[0], op2};
 		run_history(m, h2, skip, st, nullptr);
 	}
@@ -434,6 +436,7 @@ int main(int argc, char** argv) {
 	Stats top;
 	const bool thorough = A.thorough();
 	g_depth = (int) A.geti("depth", thorough ? 2 : 1);
+	g_big = (uint32_t) A.geti("big", 100);
 	size_t nfiles = 0;
 	std::vector<Model> samples = snap::sample_models(A.repo, &nfiles);
 	if (samples.size() < 2) vf::fatal("no sample files under " + A.repo + "/tests");
@@ -542,12 +545,14 @@ int main(int argc, char** argv) {
 			for (size_t o = 0; o < g_menu0.back().size(); o++) units.push_back({i, (int) o});
 	}
 	// big units first (better balance): a unit's size grows with its model's menu
-	std::stable_sort(units.begin(), units.end(), [&](const Unit& a, const Unit& b) {
-		size_t sa = g_menu0[a.model].size() * g_models[a.model].bytes.size(), sb = g_menu0[b.model].size() * g_models[b.model].bytes.size();
-		if (a.op1 < 0) sa = 0;
-		if (b.op1 < 0) sb = 0;
-		return sa > sb;
-	});
+	auto weight = [&](const Unit& u) -> size_t {
+		if (u.op1 < 0 || g_depth < 2) return 0;
+		size_t menu = g_menu0[u.model].size();
+		bool big = menu > 6 + (size_t) g_big;
+		bool del = g_menu0[u.model][(size_t) u.op1].compare(0, 4, "del:") == 0;
+		return (big && del ? 6 : menu) * g_models[u.model].bytes.size();
+	};
+	std::stable_sort(units.begin(), units.end(), [&](const Unit& a, const Unit& b) { return weight(a) > weight(b); });
 
 	vf::run_pool(units.size(), pc, [&](size_t u, const std::vector<std::string>& skips, long, Stats& st) { run_unit(units[u], skips, st); }, crash_fn, top);
 
@@ -555,9 +560,9 @@ int main(int argc, char** argv) {
 				 vf::strf("scenario = model x copy kind {copy-construct, assign over empty, assign over a loaded model} x edited side {copy, source} x "
 						  "destruction order {source first, copy first} x every edit history of length <= %d over {RenameShape, MoveVertex, DeleteVertsForShape({0}), "
 						  "SetTextureSlot(0) on the first shape, hdr.DeleteBlock(i) for every block index i, Save(default), Clear()}, operations without a target in the "
-						  "reached state left out; models = %zu (%zu of %zu distinct sample files out of %zu, smallest first, + %zu API-built); evaluations = scenarios executed; "
+						  "reached state left out; for models with more than %u blocks histories made of two DeleteBlock operations are outside the bound; models = %zu (%zu of %zu distinct sample files out of %zu, smallest first, + %zu API-built); evaluations = scenarios executed; "
 						  "distinct_nontrivial = scenarios (each enumerated once) whose history changed the raw-save bytes of the edited side",
-						  g_depth, g_models.size(), std::min(nsamples, samples.size()), samples.size(), nfiles, api.size()));
+						  g_depth, g_big, g_models.size(), std::min(nsamples, samples.size()), samples.size(), nfiles, api.size()));
 	top.set_info("history_depth", g_depth);
 	top.set_info("models", (long long) g_models.size());
 	top.set_info("sample_files_total", (long long) nfiles);
